@@ -1,0 +1,7 @@
+//go:build !verif && linux
+
+package kcp
+
+import "net"
+
+func verifBatchConn(net.PacketConn) batchConn { return nil }
